@@ -233,6 +233,12 @@ func regimeFamilies(c *hx.Ctx, cfg gc.Cfg, r *hx.Rng) {
 			runPair(c, cfg, p)
 		}
 	}
+	// every regime family is also classified through the any-geometry record-level reader (rg=, qg=), except old tables
+	// whose array is not at LBA 2 (outside the premise OldOkFlatG of the geometry theorems)
+	geoRun := func(p pairSpec) {
+		p.geo = true
+		run(p)
+	}
 	smallSize := func(lss int) int64 { return (int64(2*(16384/lss)+3) + int64(r.Intn(60))) * int64(lss) }
 
 	// -- big: the backup copy beyond 4 GiB / beyond LBA 2^32 ------------------------------------------------
@@ -282,7 +288,7 @@ func regimeFamilies(c *hx.Ctx, cfg gc.Cfg, r *hx.Rng) {
 			p.oldMbr = []*mbr.Partition{{Index: 1, Type: mbr.Linux, Start: 2048, Size: 0xFFFFF800}}
 		}
 		p.desc = fmt.Sprintf("big disk lss=%d size=%d old=%s new=%d parts", p.lss, p.size, p.oldKind, len(p.new.Parts))
-		run(p)
+		geoRun(p)
 	}
 
 	// -- lssx: other logical sector sizes ----------------------------------------------------------------------
@@ -293,7 +299,7 @@ func regimeFamilies(c *hx.Ctx, cfg gc.Cfg, r *hx.Rng) {
 		p := genPair(fmt.Sprintf("lssx%d", i), lss, smallSize(lss), -1)
 		p.regimes = []string{fmt.Sprintf("regime.lss=%d", lss)}
 		p.desc = fmt.Sprintf("sector size %d size=%d old=%d parts new=%d parts", lss, p.size, len(p.old.Parts), len(p.new.Parts))
-		run(p)
+		geoRun(p)
 	}
 
 	// -- rmw: read, edit, write back -----------------------------------------------------------------------------
@@ -310,7 +316,7 @@ func regimeFamilies(c *hx.Ctx, cfg gc.Cfg, r *hx.Rng) {
 			p.regimes = append(p.regimes, "regime.write-through=disk.Partition")
 		}
 		p.desc = fmt.Sprintf("read-modify-write lss=%d size=%d old=%d parts edit=%s viaDisk=%v", lss, p.size, len(p.old.Parts), what, p.viaDisk)
-		run(p)
+		geoRun(p)
 	}
 
 	// -- retry: the old disk is a crash state of an interrupted write ----------------------------------------
@@ -337,7 +343,7 @@ func regimeFamilies(c *hx.Ctx, cfg gc.Cfg, r *hx.Rng) {
 			p.regimes = append(p.regimes, "regime.third-table-over-crash-state")
 		}
 		p.desc = fmt.Sprintf("old = crash state (stage %d, subset %d) of an interrupted write; lss=%d size=%d retry=%v", pre.k, pre.fi, lss, p.size, i%2 == 0)
-		run(p)
+		geoRun(p)
 	}
 
 	// -- stale: a GPT for the other sector size underneath; a disk that grew ------------------------------------
@@ -355,7 +361,7 @@ func regimeFamilies(c *hx.Ctx, cfg gc.Cfg, r *hx.Rng) {
 			p.rawBuild = func(d *memdev.Dev) error { return st.ToTable().Write(d, size) }
 			p.regimes = []string{fmt.Sprintf("regime.stale-gpt-of-sector-size-%d-under-%d", other, lss)}
 			p.desc = fmt.Sprintf("stale GPT made for %d-byte sectors, new table for %d-byte sectors, size=%d", other, lss, p.size)
-			run(p)
+			geoRun(p)
 		default:
 			// the table was made when the disk was smaller: its backup copy is not at the end any more
 			p := genPair(fmt.Sprintf("stale%d", i), lss, smallSize(lss)+int64(40+r.Intn(100))*int64(lss), 1+r.Intn(5))
@@ -370,7 +376,7 @@ func regimeFamilies(c *hx.Ctx, cfg gc.Cfg, r *hx.Rng) {
 				p.regimes = append(p.regimes, "regime.new=read-modify-write", "regime.rmw.after-Table.Repair")
 			}
 			p.desc = fmt.Sprintf("disk grew from %d to %d bytes since it was partitioned; lss=%d rmw+Repair=%v", oldSize, p.size, lss, p.rmw)
-			run(p)
+			geoRun(p)
 		}
 	}
 
@@ -440,6 +446,7 @@ func regimeFamilies(c *hx.Ctx, cfg gc.Cfg, r *hx.Rng) {
 			p.regimes = append(p.regimes, "regime.foreign.array-not-sector-multiple")
 		}
 		p.desc = fmt.Sprintf("foreign GPT (%d entries, array at LBA %d, first usable %d, lss=%d, %d sectors) read, edit=%s, written back", g.count, g.arrLBA, first, g.lss, sectors, what)
+		p.geo = g.arrLBA == 2
 		run(p)
 	}
 }
